@@ -86,6 +86,7 @@ func (n *Notifier) SubscribeCancel(ctx context.Context, key any, target any) con
 	go func() {
 		verifAt("notifier.subcancel.recv", n, 0)
 		<-ctx.Done()
+		verifAt("notifier.after.passed1", nil, 0)
 		n.Unsubscribe(key, target)
 	}()
 	success = true
@@ -188,6 +189,7 @@ func (n *Notifier) PublishContext(ctx context.Context, key any, value any) {
 			failureIndex    = exitIndex - len(exitCases)
 			successIndex    = failureIndex - len(failureCases)
 		)
+		verifAt("notifier.after.passed2", nil, 0)
 
 		switch {
 		case exitIndex < len(exitCases):
